@@ -28,8 +28,8 @@ META = {
     "level_text": ("Proved in Coq for all texts, all context sizes and every opcode list accepted by the checker "
                    "valid_opcodes: applying the generated hunks to the old text yields the new text; the statistics equal the "
                    "opcode totals; if the patch applies to ANY text then that text agrees with the old text on every line a "
-                   "hunk reads (no silently wrong result), so a text differing there never yields Ok; 'always PatchConflict' "
-                   "is refuted (short text -> StopIteration/RuntimeError) and proved under the guard 'text not shorter'. "
+                   "hunk reads (no silently wrong result), so a text differing there never yields Ok and is "
+                   "always reported as PatchConflict (also when the text ends before or inside a hunk). "
                    "Partial: serialise-then-parse is proved for the iter_hunks loop over logical lines with the header "
                    "round trip as an executable guard; the byte layer (readlines, no-newline marker, decimal headers) and "
                    "the sequence matcher (an input validated by the checker) are covered by the byte-exact correspondence only."),
@@ -176,9 +176,10 @@ def setup(scratch):
 
 def corpus():
     c = [
-        # finding witnesses
+        # regression witnesses of the two defects fixed by c231e9b (must be PatchConflict now)
         _mk("perturb", [b"a\n"], [b"b\n"], 3, a2=[b"z\n"]),
         _mk("perturb", [b"a\n"], [b"b\n"], 3, a2=[]),
+        _mk("perturb", [b"a\n"] * 6 + [b"b\n"], [b"a\n"] * 6 + [b"c\n"], 1, a2=[b"a\n"] * 3),   # ends before the hunk
         # empty <-> non-empty, header work-around, context 0 numbering
         _mk("diff", [], [b"x\n"], 0), _mk("diff", [b"x\n"], [], 0), _mk("diff", [], [], 3),
         _mk("diff", [], [b"x\n"] * 10, 3), _mk("diff", [b"x\n"] * 10, [], 3),
@@ -252,7 +253,7 @@ def _exc_obs(e):
             tb = tb.tb_next
         fr = tb.tb_frame
         if fr.f_code.co_name == "__init__" and isinstance(fr.f_locals.get("self"), patches.PatchConflict):
-            # PatchConflict.__init__ itself failed: the conflict was detected, but is not reported as one
+            # PatchConflict.__init__ itself failed: the conflict is not reported as one (regression of c231e9b)
             return [Err("TypeError@PatchConflict.__init__"), fr.f_locals.get("line_no")]
         raise e
     if isinstance(e, RuntimeError) and "StopIteration" in str(e):
@@ -350,19 +351,6 @@ def impl(inp):
     return [d, _patched_obs(a, lines), _parse_obs(lines)]
 
 
-def impl_obs(inp, obs):
-    """what the model predicts: a conflict is a conflict, however badly it is reported"""
-    def fix(o):
-        if isinstance(o, list) and o and isinstance(o[0], Err) and str(o[0]) == "TypeError@PatchConflict.__init__":
-            return [Err("PatchConflict"), o[1]]
-        return o
-    if isinstance(obs, list) and inp["kind"] in ("perturb", "parse", "diff") and obs:
-        if inp["kind"] == "diff":
-            return obs[:1] + [fix(obs[1])] + obs[2:] if len(obs) > 1 else obs
-        return [fix(obs[0])] + obs[1:]
-    return obs
-
-
 # --------------------------------------------------------------------------- model terms
 def _lines(ls):
     return coq_list([coq_bytes(bytes(x)) for x in ls])
@@ -439,6 +427,8 @@ def oracle(inp, obs):
         return _check_parse(po)
     # perturb: the patch is positional; it applies to a2 iff a2 agrees with a on every hunk's old range
     a2 = [bytes(x) for x in inp["a2"]]
+    if a == b:
+        return None          # no diff at all: nothing to apply (only reachable through shrinking)
     groups = list(_matcher(inp["matcher"])(None, a, b).get_grouped_opcodes(n))
     ok = True
     expected, pos = [], 0
@@ -463,15 +453,7 @@ def oracle(inp, obs):
 
 
 def finding_matches(fid, inp, obs, why):
-    if inp.get("kind") != "perturb" or not isinstance(obs, list) or not obs:
-        return False
-    got = obs[0]
-    if fid == "C39-conflict-typeerror":
-        return isinstance(got, list) and bool(got) and isinstance(got[0], Err) and \
-            str(got[0]) == "TypeError@PatchConflict.__init__"
-    if fid == "C39-short-text-runtimeerror":
-        # the old text ends before the line a hunk wants to read
-        return isinstance(got, Err) and str(got) == "RuntimeError" and len(inp["a2"]) < len(inp["a"])
+    # C39-conflict-typeerror and C39-short-text-runtimeerror were fixed in /repo (c231e9b): nothing is excused
     return False
 
 
@@ -544,12 +526,15 @@ def search(hints, rng):
         for b in _texts(ALPHA[:2], 3):
             for n in (0, 1, 2, 3):
                 pool.append(_mk("diff", a, b, n))
+            if a != b:
+                for a2 in _perturbations(a, rng, 6):
+                    pool.append(_mk("perturb", a, b, 1, a2=a2))
     for inp in pool:
         try:
             o = impl(inp)
         except Exception as e:  # noqa: BLE001
             o = Err("DRIVER:" + type(e).__name__)
         why = oracle(inp, o)
-        if why and not any(finding_matches(f, inp, o, why) for f in ("C39-conflict-typeerror", "C39-short-text-runtimeerror")):
+        if why:
             return inp, o, why
     return None
